@@ -282,9 +282,14 @@ func (s MergedStore) ListPredicates() []ast.PredicateSym {
 	return res
 }
 
-// Merge forwards to writeStore.Merge
+// Merge adds all facts from other that are not yet in one of the stores.
 func (s MergedStore) Merge(other ReadOnlyFactStore) {
-	s.writeStore.Merge(other)
+	for _, pred := range other.ListPredicates() {
+		other.GetFacts(ast.NewQuery(pred), func(fact ast.Atom) error {
+			s.Add(fact)
+			return nil
+		})
+	}
 }
 
 // NewMergedStore returns a new MergedStore.
